@@ -318,7 +318,9 @@ fn c10_t_mutex_cancel_vs_unlock() {
   let mut f2 = Some(mk_lock(m));
   assert!(poll_slot(&mut f1, 0).is_pending(), "C10: lock_async acquired a held mutex");
   assert!(poll_slot(&mut f2, 1).is_pending(), "C10: lock_async acquired a held mutex");
+  with_pick(12, |at| {
   MG.store(&mut held as *mut _, Relaxed);
+  sched::set_preempt_at(at);
   sched::install(actor_drop_mutex_guard, 1, 1);
   f1 = None; // cancel the head waiter; the release lands somewhere inside (or after)
   sched::run_pending();
@@ -326,7 +328,11 @@ fn c10_t_mutex_cancel_vs_unlock() {
   assert!(wakes(1) > 0, "C10: mutex free, head waiter cancelled, next waiter never woken (lost wakeup)");
   kani::cover!(wakes(0) > 0, "the cancelled waiter had been woken");
   kani::cover!(wakes(0) == 0, "the cancelled waiter had not been woken");
+  assert!(sched::points() <= 12, "VERIF-BOUND: more scheduling points than the dispatch covers");
+  });
   std::mem::forget(f2);
+  std::mem::forget(f1);
+  std::mem::forget(held);
 }
 
 /// Same with the roles swapped: release on top, cancel injected.
@@ -335,19 +341,25 @@ fn c10_t_mutex_cancel_vs_unlock() {
 fn c10_t_mutex_unlock_vs_cancel() {
   let m_stack = HybridMutex::new(0u8);
   let m: &'static HybridMutex<u8> = unsafe { &*(&m_stack as *const HybridMutex<u8>) }; // on the stack: CBMC tracks stack objects precisely
-  let held = m.try_lock();
+  let mut held = m.try_lock();
   let mut f1: Option<MFut> = Some(Box::pin(m.lock_async()));
   let mut f2: Option<MFut> = Some(Box::pin(m.lock_async()));
   assert!(poll_with(f1.as_mut().unwrap().as_mut(), 0).is_pending(), "C10: lock_async acquired a held mutex");
   assert!(poll_with(f2.as_mut().unwrap().as_mut(), 1).is_pending(), "C10: lock_async acquired a held mutex");
+  with_pick(12, |at| {
   MF.store(&mut f1 as *mut _, Relaxed);
+  sched::set_preempt_at(at);
   sched::install(actor_cancel_mutex_future, 1, 1);
-  drop(held);
+  held = None;
   sched::run_pending();
   sched::uninstall();
   assert!(wakes(1) > 0, "C10: mutex free, head waiter cancelled, next waiter never woken (lost wakeup)");
   kani::cover!(wakes(0) > 0, "the cancelled waiter had been woken");
+  assert!(sched::points() <= 12, "VERIF-BOUND: more scheduling points than the dispatch covers");
+  });
   std::mem::forget(f2);
+  std::mem::forget(f1);
+  std::mem::forget(held);
 }
 
 // ---- rwlock
@@ -421,7 +433,9 @@ fn c10_t_rw_cancel_writer_vs_unlock() {
   let mut f2 = Some(mk_write(l));
   assert!(poll_slot(&mut f1, 0).is_pending(), "C10: write_async acquired a held lock");
   assert!(poll_slot(&mut f2, 1).is_pending(), "C10: write_async acquired a held lock");
+  with_pick(14, |at| {
   WGP.store(&mut held as *mut _, Relaxed);
+  sched::set_preempt_at(at);
   sched::install(actor_drop_write_guard, 1, 1);
   f1 = None;
   sched::run_pending();
@@ -429,7 +443,11 @@ fn c10_t_rw_cancel_writer_vs_unlock() {
   assert!(wakes(1) > 0, "C10: lock free, first queued writer cancelled, second writer never woken (lost wakeup)");
   kani::cover!(wakes(0) > 0, "the cancelled writer had been woken");
   kani::cover!(wakes(0) == 0, "the cancelled writer had not been woken");
+  assert!(sched::points() <= 14, "VERIF-BOUND: more scheduling points than the dispatch covers");
+  });
   std::mem::forget(f2);
+  std::mem::forget(f1);
+  std::mem::forget(held);
 }
 
 /// Roles swapped: release on top, cancel injected.
@@ -438,18 +456,24 @@ fn c10_t_rw_cancel_writer_vs_unlock() {
 fn c10_t_rw_unlock_vs_cancel_writer() {
   let l_stack = HybridRwLock::new(0u8);
   let l: &'static HybridRwLock<u8> = unsafe { &*(&l_stack as *const HybridRwLock<u8>) };
-  let held = l.try_write();
+  let mut held = l.try_write();
   let mut f1: Option<WFut> = Some(Box::pin(l.write_async()));
   let mut f2: Option<WFut> = Some(Box::pin(l.write_async()));
   assert!(poll_with(f1.as_mut().unwrap().as_mut(), 0).is_pending(), "C10: write_async acquired a held lock");
   assert!(poll_with(f2.as_mut().unwrap().as_mut(), 1).is_pending(), "C10: write_async acquired a held lock");
+  with_pick(14, |at| {
   WFP.store(&mut f1 as *mut _, Relaxed);
+  sched::set_preempt_at(at);
   sched::install(actor_cancel_write_future, 1, 1);
-  drop(held);
+  held = None;
   sched::run_pending();
   sched::uninstall();
   assert!(wakes(1) > 0, "C10: lock free, first queued writer cancelled, second writer never woken (lost wakeup)");
+  assert!(sched::points() <= 14, "VERIF-BOUND: more scheduling points than the dispatch covers");
+  });
   std::mem::forget(f2);
+  std::mem::forget(f1);
+  std::mem::forget(held);
 }
 
 fn actor_reader_arrives(_a: sched::ActorId) {
